@@ -802,3 +802,417 @@ Proof.
     subst sb sa. unfold mst_of, setm, set_global_m, idx. vmcbn. rewrite Nat2Z.id, nth_set_global_same.
     f_equal; lia.
 Qed.
+
+(** * Simulation, statement level *)
+
+Section PExec.
+  Variable orc : oracle.
+
+  (* top-level statements of F1: `fin` is the machine's final_result register *)
+  Fixpoint pexec (t : symtab) (l : list stmt) (m : mst) (fin : val) : outcome (mst * val) :=
+    match l with
+    | [] => Ok (m, fin)
+    | s :: r =>
+        match s with
+        | SLet x e =>
+            let '(t', sy) := define t x in
+            do (v, m1) <- peval orc (resolve t') e m;
+            pexec t' r (set_global_m (s_index sy) v m1) fin
+        | SExpr e =>
+            do (v, m1) <- peval orc (resolve t) e m;
+            pexec t r m1 v
+        | _ => Err ETypeError
+        end
+    end.
+End PExec.
+
+Definition setmf (s : vm) (ip : Z) (m : mst) (fin : val) : vm :=
+  mkVM (v_stack s) (v_slen s) (m_gl m) (v_frames s) ip (v_bp s) fin (m_heap m) (m_gc m) (v_out s).
+
+Definition sim_stmts (orc : oracle) (prog : program) (s : vm) (ip' : Z) (r : outcome (mst * val)) : Prop :=
+  match r with
+  | Ok (m', fin') => reaches orc prog s (setmf s ip' m' fin')
+  | _ => stops orc prog s (retag r) (v_out s)
+  end.
+
+Lemma cs_expr : forall e st,
+  compile_statement (SExpr e) st = do st1 <- compile_expression e st; Ok (emit_opcode OPop st1).
+Proof. reflexivity. Qed.
+Lemma cs_let : forall x e st,
+  compile_statement (SLet x e) st =
+  let '(t, sym) := define (c_symbols st) x in
+  do st1 <- compile_expression e (set_symbols st t);
+  emit_sym (scoped sym OSetGlobal OSetLocal) sym st1.
+Proof. reflexivity. Qed.
+
+Lemma retag_retag : forall A B (x : outcome A) (k : A -> outcome B),
+  (forall a, x <> Ok a) -> retag (bind x k) = retag x.
+Proof. intros A B x k H. destruct x; try reflexivity. exfalso. apply (H a). reflexivity. Qed.
+
+Theorem compile_stmts_sim : forall orc l, in_F1 l = true ->
+  forall st st', gtab (c_symbols st) -> compile_statements l st = Ok st' ->
+  gtab (c_symbols st') /\
+  exists ce kx, c_code st' = c_code st ++ ce /\ c_constants st' = c_constants st ++ kx /\ Forall is_kint kx /\
+    forall prog, code_at prog (code_len st) ce -> consts_ok prog (c_constants st') ->
+    forall s, v_ip s = code_len st ->
+    sim_stmts orc prog s (code_len st') (pexec orc (c_symbols st) l (mst_of s) (v_final s)).
+Proof.
+  intros orc l. induction l as [|s0 l IH]; intros HF st st' Hg H.
+  - cbn [compile_statements] in H. inversion H; subst st'; clear H. split; [exact Hg|].
+    exists [], []. rewrite !app_nil_r. split; [reflexivity|]. split; [reflexivity|]. split; [constructor|].
+    intros prog _ _ s Hip. cbn [pexec sim_stmts]. exists O. cbn [steps]. f_equal.
+    destruct s; unfold setmf, mst_of; cbn in *. subst. reflexivity.
+  - cbn [in_F1 forallb] in HF. apply andb_prop in HF. destruct HF as [HF0 HFl].
+    cbn [compile_statements] in H. apply bind_ok in H. destruct H as [st2 [H0 Hl]].
+    destruct s0 as [x e|e|e| | |]; try discriminate HF0; cbn [in_F1s] in HF0.
+    + (* SLet *)
+      rewrite cs_let in H0. destruct (define (c_symbols st) x) as [t' sy] eqn:Ed.
+      destruct (gtab_define _ _ _ _ Hg Ed) as [Hg' Hsy].
+      apply bind_ok in H0. destruct H0 as [st1 [H1 H2]].
+      unfold scoped in H2. rewrite Hsy in H2.
+      assert (gtab (c_symbols (set_symbols st t'))) as Hg0 by exact Hg'.
+      destruct (compile_expr_sim orc e HF0 (set_symbols st t') st1 (or_intror Hg0) H1)
+        as [Hs1 [ce1 [kx1 [Hc1 [Hk1 [Hf1 Hsim1]]]]]].
+      cbn [set_symbols c_symbols c_code c_constants] in Hs1, Hc1, Hk1.
+      destruct (emit_sym_spec _ _ _ _ H2) as [Hs2 [Hk2 [Hr Hc2]]].
+      assert (gtab (c_symbols st2)) as Hg2 by (rewrite Hs2, Hs1; exact Hg').
+      destruct (IH HFl st2 st' Hg2 Hl) as [Hg3 [ce3 [kx3 [Hc3 [Hk3 [Hf3 Hsim3]]]]]].
+      split; [exact Hg3|].
+      set (idx := Z.of_nat (s_index sy)) in *.
+      exists (ce1 ++ [byte_of_opcode OSetGlobal; idx mod 256; (idx / 256) mod 256] ++ ce3), (kx1 ++ kx3).
+      split; [rewrite Hc3, Hc2, Hc1, <- !app_assoc; reflexivity|].
+      split; [rewrite Hk3, Hk2, Hk1, <- app_assoc; reflexivity|].
+      split; [apply Forall_app; auto|].
+      intros prog Hcode Hconsts s Hip.
+      assert (code_len (set_symbols st t') = code_len st) as L0 by reflexivity.
+      assert (code_len st1 = code_len st + zlength ce1) as L1.
+      { unfold code_len. rewrite Hc1, zlength_app. reflexivity. }
+      pose proof (code_len_app _ _ _ Hc2) as L2.
+      apply code_at_app in Hcode. destruct Hcode as [Hcode1 Hcode]. rewrite <- L1 in Hcode.
+      apply code_at_app in Hcode. destruct Hcode as [Hcode2 Hcode3]. rewrite <- L2 in Hcode3.
+      rewrite zlength3 in L2.
+      assert (consts_ok prog (c_constants st1)) as Hk1ok.
+      { apply (consts_ok_app prog _ kx3). rewrite <- Hk2, <- Hk3. exact Hconsts. }
+      rewrite <- L0 in Hcode1, Hip. specialize (Hsim1 prog Hcode1 Hk1ok s Hip).
+      cbn [set_symbols c_symbols] in Hsim1.
+      cbn [pexec]. rewrite Ed.
+      destruct (peval orc (resolve t') e (mst_of s)) as [[a m1]| | |]; cbn [bind];
+        try exact Hsim1.
+      cbn [sim_expr] in Hsim1.
+      set (sa := setm s (a :: v_stack s) (v_slen s + 1) (code_len st1) m1) in *.
+      pose proof (step_set_global orc prog sa idx a (v_stack s) [] Hcode2 Hr eq_refl) as Hstep.
+      set (sb := setmf s (code_len st2) (set_global_m (s_index sy) a m1) (v_final s)).
+      assert (setm sa (v_stack s) (v_slen sa - 1) (v_ip sa + 3) (set_global_m (Z.to_nat idx) a (mst_of sa)) = sb) as Esb.
+      { subst sa sb idx. unfold setm, setmf, mst_of, set_global_m. vmcbn. rewrite Nat2Z.id. f_equal; lia. }
+      rewrite Esb in Hstep.
+      assert (reaches orc prog s sb) as Hsb.
+      { apply (reaches_trans orc prog s sa _ Hsim1). apply reaches_step. exact Hstep. }
+      specialize (Hsim3 prog Hcode3 Hconsts sb eq_refl).
+      rewrite Hs2, Hs1 in Hsim3.
+      change (mst_of sb) with (mkM (m_heap (set_global_m (s_index sy) a m1)) (m_gc (set_global_m (s_index sy) a m1))
+                                   (m_gl (set_global_m (s_index sy) a m1))) in Hsim3.
+      rewrite mst_eta in Hsim3. change (v_final sb) with (v_final s) in Hsim3.
+      destruct (pexec orc t' l (set_global_m (s_index sy) a m1) (v_final s)) as [[m' fin']| | |];
+        cbn [sim_stmts retag] in *;
+        try (apply (reaches_stops orc prog s sb _ _ Hsb); exact Hsim3).
+      apply (reaches_trans orc prog s sb _ Hsb). exact Hsim3.
+    + (* SExpr *)
+      rewrite cs_expr in H0. apply bind_ok in H0. destruct H0 as [st1 [H1 H2]].
+      inversion H2; subst st2; clear H2.
+      destruct (compile_expr_sim orc e HF0 st st1 (or_intror Hg) H1)
+        as [Hs1 [ce1 [kx1 [Hc1 [Hk1 [Hf1 Hsim1]]]]]].
+      assert (gtab (c_symbols (emit_opcode OPop st1))) as Hg2 by (cbn [emit_opcode c_symbols]; rewrite Hs1; exact Hg).
+      destruct (IH HFl _ st' Hg2 Hl) as [Hg3 [ce3 [kx3 [Hc3 [Hk3 [Hf3 Hsim3]]]]]].
+      split; [exact Hg3|].
+      cbn [emit_opcode c_symbols c_code c_constants] in Hc3, Hk3.
+      exists (ce1 ++ [byte_of_opcode OPop] ++ ce3), (kx1 ++ kx3).
+      split; [rewrite Hc3, Hc1, <- !app_assoc; reflexivity|].
+      split; [rewrite Hk3, Hk1, <- app_assoc; reflexivity|].
+      split; [apply Forall_app; auto|].
+      intros prog Hcode Hconsts s Hip.
+      pose proof (code_len_app _ _ _ Hc1) as L1.
+      pose proof (code_len_emit_opcode OPop st1) as L2.
+      apply code_at_app in Hcode. destruct Hcode as [Hcode1 Hcode]. rewrite <- L1 in Hcode.
+      apply code_at_app in Hcode. destruct Hcode as [Hcode2 Hcode3].
+      change (zlength [byte_of_opcode OPop]) with 1 in Hcode3. rewrite <- L2 in Hcode3.
+      assert (consts_ok prog (c_constants st1)) as Hk1ok.
+      { apply (consts_ok_app prog _ kx3). rewrite <- Hk3. exact Hconsts. }
+      specialize (Hsim1 prog Hcode1 Hk1ok s Hip).
+      cbn [pexec].
+      destruct (peval orc (resolve (c_symbols st)) e (mst_of s)) as [[a m1]| | |]; cbn [bind];
+        try exact Hsim1.
+      cbn [sim_expr] in Hsim1.
+      set (sa := setm s (a :: v_stack s) (v_slen s + 1) (code_len st1) m1) in *.
+      pose proof (step_pop orc prog sa a (v_stack s) [] Hcode2 eq_refl) as Hstep.
+      set (sb := setmf s (code_len (emit_opcode OPop st1)) m1 a).
+      assert (mkVM (v_stack s) (v_slen sa - 1) (v_globals sa) (v_frames sa) (v_ip sa + 1) (v_bp sa) a
+                   (v_heap sa) (v_gc sa) (v_out sa) = sb) as Esb.
+      { subst sa sb. unfold setm, setmf. vmcbn. f_equal; lia. }
+      rewrite Esb in Hstep.
+      assert (reaches orc prog s sb) as Hsb.
+      { apply (reaches_trans orc prog s sa _ Hsim1). apply reaches_step. exact Hstep. }
+      specialize (Hsim3 prog Hcode3 Hconsts sb eq_refl).
+      cbn [emit_opcode c_symbols] in Hsim3. rewrite Hs1 in Hsim3.
+      change (mst_of sb) with (mkM (m_heap m1) (m_gc m1) (m_gl m1)) in Hsim3.
+      rewrite mst_eta in Hsim3. change (v_final sb) with a in Hsim3.
+      destruct (pexec orc (c_symbols st) l m1 a) as [[m' fin']| | |];
+        cbn [sim_stmts retag] in *;
+        try (apply (reaches_stops orc prog s sb _ _ Hsb); exact Hsim3).
+      apply (reaches_trans orc prog s sb _ Hsb). exact Hsim3.
+Qed.
+
+(** * Values of the fragment: scalars; the heap and the collector are never touched *)
+
+Definition sres_ok (r : sres) : Prop :=
+  match r with SInt z => in_int_range z = true | SFloat _ => False | _ => True end.
+
+Lemma int_result_ok : forall z, sres_ok (int_result z).
+Proof. intros z. unfold int_result. destruct (in_int_range z) eqn:E; cbn [sres_ok]; auto. Qed.
+
+Lemma spec_int_ok : forall o x y, sres_ok (spec_int o x y).
+Proof.
+  intros o x y. destruct o; cbn [spec_int cmp_holds]; try apply int_result_ok;
+    try (destruct (y =? 0); [exact I|apply int_result_ok]); try exact I.
+Qed.
+
+Lemma spec_bool_ok : forall o x y, sres_ok (spec_bool o x y).
+Proof. intros o x y. destruct o; cbn [spec_bool cmp_holds]; exact I. Qed.
+
+Lemma spec_null_ok : forall o, sres_ok (spec_null o).
+Proof. intros o. destruct o; cbn [spec_null cmp_holds]; exact I. Qed.
+
+Lemma lift_sres_ok : forall h r, sres_ok r ->
+  match lift_sres h r with
+  | Ok (v, h') => h' = h /\ scalar v = true
+  | Err _ => True
+  | _ => False
+  end.
+Proof. intros h r H. destruct r; cbn [lift_sres sres_ok scalar] in *; try contradiction; auto. Qed.
+
+Lemma scalar_wf : forall v, scalar v = true -> wf_val v = true.
+Proof. intros v H. destruct v; try discriminate H; cbn [wf_val]; auto. Qed.
+
+(* a binary operator on scalars: a scalar and the same heap, or an error; whatever the heap *)
+Lemma binop_scalar : forall orc op mth a b, Sem.method_of op = Some mth ->
+  scalar a = true -> scalar b = true ->
+  exists r, sres_ok r /\ forall h, binop orc mth h a b = lift_sres h r.
+Proof.
+  intros orc op mth a b Hm Ha Hb.
+  change (Sem.method_of op) with (OpsProofs.method_of op) in Hm.
+  pose proof (scalar_wf a Ha) as Wa. pose proof (scalar_wf b Hb) as Wb.
+  destruct a as [|x|x| | | |]; try discriminate Ha; destruct b as [|y|y| | | |]; try discriminate Hb;
+    try (exists SErr; split; [exact I|]; intros h0;
+         rewrite (binop_mismatch orc h0 op mth _ _ Hm Wa Wb ltac:(discriminate)); reflexivity).
+  - exists (spec_null op). split; [apply spec_null_ok|]. intros h0. apply binop_null; exact Hm.
+  - exists (spec_bool op x y). split; [apply spec_bool_ok|]. intros h0. apply binop_bool; exact Hm.
+  - exists (spec_int op x y). split; [apply spec_int_ok|]. intros h0. apply binop_int; assumption.
+Qed.
+
+Lemma negate_scalar : forall a, scalar a = true ->
+  exists r, sres_ok r /\ forall h, negate h a = lift_sres h r.
+Proof.
+  intros a Ha. destruct a as [|x|z| | | |]; try discriminate Ha.
+  - exists SErr. split; [exact I|]. reflexivity.
+  - exists SErr. split; [exact I|]. reflexivity.
+  - cbn [scalar] in Ha. exists (int_result (- z)). split; [apply int_result_ok|]. intros h.
+    rewrite (negate_exact h z (proj1 (in_int_range_iff z) Ha)). unfold int_result.
+    destruct (in_int_range (- z)); reflexivity.
+Qed.
+
+Definition scalar_m (m : mst) : Prop := Forall (fun v => scalar v = true) (m_gl m).
+
+Lemma with_new_m_same : forall m v, with_new_m m (v, m_heap m) = m.
+Proof. intros m v. unfold with_new_m. rewrite Pos.eqb_refl. apply mst_eta. Qed.
+
+Lemma Forall_replace_nth : forall A (P : A -> Prop) n v l, P v -> Forall P l -> Forall P (replace_nth n v l).
+Proof.
+  intros A P n v l Hv. revert n. induction l as [|y l IH]; intros n H; destruct n; cbn [replace_nth]; auto.
+  - inversion H; subst. constructor; auto.
+  - inversion H; subst. constructor; auto.
+Qed.
+
+Lemma Forall_repeat_val : forall A (P : A -> Prop) x n, P x -> Forall P (repeat_val x n).
+Proof. intros A P x n Hx. induction n; cbn [repeat_val]; constructor; auto. Qed.
+
+Lemma scalar_set_global : forall n v gl, scalar v = true ->
+  Forall (fun v => scalar v = true) gl -> Forall (fun v => scalar v = true) (set_global n v gl).
+Proof.
+  intros n v gl Hv Hg. unfold set_global. apply Forall_replace_nth; [exact Hv|].
+  destruct (Nat.ltb n (length gl)); [exact Hg|]. apply Forall_app. split; [exact Hg|].
+  apply Forall_repeat_val. reflexivity.
+Qed.
+
+Lemma scalar_nth : forall n gl, Forall (fun v => scalar v = true) gl -> scalar (nth n gl VNull) = true.
+Proof.
+  intros n gl H. revert n. induction H as [|y l Hy Hl IH]; intros [|n]; cbn [nth]; auto.
+Qed.
+
+(* on scalar globals an F1 expression yields a scalar, leaves heap and collector alone, and (without
+   assignment) the globals too *)
+Lemma peval_scalar : forall orc rs e, in_F1e e = true -> forall m v m', scalar_m m ->
+  peval orc rs e m = Ok (v, m') ->
+  scalar v = true /\ scalar_m m' /\ m_heap m' = m_heap m /\ m_gc m' = m_gc m /\
+  (no_ident e = true -> m' = m).
+Proof.
+  intros orc rs e. induction e as [l IHl op r IHr|op r IHr|z| |b| |x| | |l IHl r IHr| | | |];
+    intros HF m v m' Hm H; try discriminate HF; cbn [in_F1e] in HF; cbn [peval] in H.
+  - apply andb_prop in HF. destruct HF as [HF Hr]. apply andb_prop in HF. destruct HF as [Hop Hl].
+    destruct (peval orc rs l m) as [[a m1]| | |] eqn:El; try discriminate H. cbn [bind] in H.
+    destruct (IHl Hl m a m1 Hm El) as [Sa [Sm1 [Hh1 [Hg1 Hn1]]]].
+    destruct (peval orc rs r m1) as [[b m2]| | |] eqn:Er; try discriminate H. cbn [bind] in H.
+    destruct (IHr Hr m1 b m2 Sm1 Er) as [Sb [Sm2 [Hh2 [Hg2 Hn2]]]].
+    destruct (Sem.method_of op) as [mth|] eqn:Em; [|discriminate H].
+    destruct (binop_scalar orc op mth a b Em Sa Sb) as [sr [Hok Hbin]].
+    rewrite Hbin in H. pose proof (lift_sres_ok (m_heap m2) sr Hok) as Hl2.
+    destruct (lift_sres (m_heap m2) sr) as [[v0 h0]| | |]; try discriminate H; try contradiction.
+    destruct Hl2 as [-> Sv]. cbn [bind fst] in H. rewrite with_new_m_same in H. inversion H; subst.
+    split; [exact Sv|]. split; [exact Sm2|]. split; [congruence|]. split; [congruence|].
+    intros Hn. cbn [no_ident] in Hn. apply andb_prop in Hn. destruct Hn as [N1 N2].
+    rewrite (Hn2 N2). apply Hn1; exact N1.
+  - apply andb_prop in HF. destruct HF as [Hop Hr].
+    destruct (peval orc rs r m) as [[a m1]| | |] eqn:Er; try discriminate H. cbn [bind] in H.
+    destruct (IHr Hr m a m1 Hm Er) as [Sa [Sm1 [Hh1 [Hg1 Hn1]]]].
+    assert ((do x <- negate (m_heap m1) a; Ok (fst x, with_new_m m1 x)) = Ok (v, m') ->
+                      scalar v = true /\ m' = m1) as Hneg.
+    { intros H0. destruct (negate_scalar a Sa) as [sr [Hok Hn]]. rewrite Hn in H0.
+      pose proof (lift_sres_ok (m_heap m1) sr Hok) as Hl2.
+      destruct (lift_sres (m_heap m1) sr) as [[v0 h0]| | |]; try discriminate H0; try contradiction.
+      destruct Hl2 as [-> Sv]. cbn [bind fst] in H0. rewrite with_new_m_same in H0. inversion H0; subst. auto. }
+    assert (scalar v = true /\ m' = m1) as [Sv ->].
+    { destruct op; try discriminate Hop.
+      - exact (Hneg H).
+      - destruct a; try discriminate H. cbn [lognot bind] in H. inversion H; subst. auto.
+      - exact (Hneg H). }
+    split; [exact Sv|]. split; [exact Sm1|]. split; [exact Hh1|]. split; [exact Hg1|]. exact Hn1.
+  - inversion H; subst. split; [|auto]. cbn [scalar]. unfold lit_ok in HF. unfold in_int_range.
+    apply andb_prop in HF. destruct HF as [H0 H1]. apply Z.leb_le in H0. rewrite H1.
+    pose proof MIN_INT_val. apply andb_true_intro. split; [apply Z.leb_le; lia|reflexivity].
+  - inversion H; subst. auto.
+  - destruct (rs x) as [sy|]; [|discriminate H]. inversion H; subst.
+    split; [apply scalar_nth; exact Hm|]. split; [exact Hm|]. split; [reflexivity|]. split; [reflexivity|].
+    intros Hn; discriminate Hn.
+  - destruct l as [| | | | | |x| | | | | | |]; try discriminate HF.
+    destruct (rs x) as [sy|]; [|discriminate H].
+    destruct (peval orc rs r m) as [[a m1]| | |] eqn:Er; try discriminate H. cbn [bind] in H.
+    destruct (IHr HF m a m1 Hm Er) as [Sa [Sm1 [Hh1 [Hg1 Hn1]]]]. inversion H; subst.
+    split; [exact Sa|]. split; [apply scalar_set_global; assumption|].
+    split; [exact Hh1|]. split; [exact Hg1|]. intros Hn; discriminate Hn.
+Qed.
+
+Lemma pexec_scalar : forall orc l, in_F1 l = true -> forall t m fin m' fin',
+  scalar_m m -> scalar fin = true -> pexec orc t l m fin = Ok (m', fin') ->
+  scalar fin' = true /\ m_heap m' = m_heap m.
+Proof.
+  intros orc l. induction l as [|s0 l IH]; intros HF t m fin m' fin' Hm Hfin H.
+  - cbn [pexec] in H. inversion H; subst. auto.
+  - cbn [in_F1 forallb] in HF. apply andb_prop in HF. destruct HF as [HF0 HFl].
+    destruct s0 as [x e|e|e| | |]; try discriminate HF0; cbn [in_F1s] in HF0; cbn [pexec] in H.
+    + destruct (define t x) as [t' sy].
+      destruct (peval orc (resolve t') e m) as [[a m1]| | |] eqn:Ee; try discriminate H. cbn [bind] in H.
+      destruct (peval_scalar orc _ e HF0 m a m1 Hm Ee) as [Sa [Sm1 [Hh1 _]]].
+      destruct (IH HFl t' (set_global_m (s_index sy) a m1) fin m' fin') as [S1 S2]; auto.
+      { apply scalar_set_global; assumption. }
+      split; [exact S1|]. rewrite S2. exact Hh1.
+    + destruct (peval orc (resolve t) e m) as [[a m1]| | |] eqn:Ee; try discriminate H. cbn [bind] in H.
+      destruct (peval_scalar orc _ e HF0 m a m1 Hm Ee) as [Sa [Sm1 [Hh1 _]]].
+      destruct (IH HFl t m1 a m' fin') as [S1 S2]; auto.
+      split; [exact S1|]. rewrite S2. exact Hh1.
+Qed.
+
+(** * Whole programs: compile, load, run *)
+
+Lemma load_consts_kint : forall ks h, Forall is_kint ks ->
+  snd (load_consts ks h) = h /\
+  (forall i z, nth_error ks i = Some (KInt z) -> nth_error (fst (load_consts ks h)) i = Some (VInt z)) /\
+  (forall g, fold_left maybe_trace (fst (load_consts ks h)) g = g).
+Proof.
+  intros ks h H. induction H as [|k ks [z ->] Hks IH].
+  - cbn [load_consts fst snd fold_left]. split; [reflexivity|]. split; [|reflexivity].
+    intros [|i] z Hi; discriminate Hi.
+  - cbn [load_consts]. destruct (load_consts ks h) as [vs h2]. cbn [fst snd] in *.
+    destruct IH as [I1 [I2 I3]]. split; [exact I1|]. split.
+    + intros [|i] z0 Hi; cbn [nth_error] in *; [inversion Hi; reflexivity|apply I2; exact Hi].
+    + intros g. cbn [fold_left]. unfold maybe_trace at 2. cbn [is_heap_val val_loc]. apply I3.
+Qed.
+
+Lemma run_program_eq : forall orc bc budget consts h0 r s lhs out,
+  load_consts (b_constants bc) empty_heap = (consts, h0) ->
+  run_loop orc (mkProgram (b_code bc) consts) budget (vm_start vm_new consts h0) = (r, s, lhs) ->
+  v_out s = out ->
+  o_result (run_program orc bc budget) = r /\ o_out (run_program orc bc budget) = out.
+Proof.
+  intros orc bc budget consts h0 r s lhs out Hl Hr Ho. unfold run_program. rewrite Hl, Hr.
+  split; [reflexivity|exact Ho].
+Qed.
+
+Lemma compile_inv : forall p bc, compile p = Ok bc ->
+  exists st1, compile_statements p compiler_new = Ok st1 /\
+              bc = mkBytecode (c_constants st1) (c_code st1 ++ [byte_of_opcode OHalt]).
+Proof.
+  intros p bc H. unfold compile, compile_ast in H.
+  destruct (compile_statements p compiler_new) as [st1| | |]; cbn [snd] in H; try discriminate H.
+  inversion H; subst; clear H. exists st1. split; reflexivity.
+Qed.
+
+Definition mst0 : mst := mkM empty_heap gc_new [].
+
+(* what a run of the compiled program observes, in terms of the intermediate evaluator *)
+Theorem compile_run_F1 : forall orc p bc, in_F1 p = true -> compile p = Ok bc ->
+  match pexec orc symtab_new p mst0 VNull with
+  | Ok (m', fin') => exists budget, o_result (run_program orc bc budget) = Ok fin'
+                                    /\ o_out (run_program orc bc budget) = []
+  | Err k => exists budget, o_result (run_program orc bc budget) = Err k
+                            /\ o_out (run_program orc bc budget) = []
+  | Fault f => exists budget, o_result (run_program orc bc budget) = Fault f
+                              /\ o_out (run_program orc bc budget) = []
+  | OutOfFuel => True
+  end.
+Proof.
+  intros orc p bc HF H. destruct (compile_inv p bc H) as [st1 [Hc ->]]. clear H.
+  assert (gtab (c_symbols compiler_new)) as Hg by (exists O, [[]]; reflexivity).
+  destruct (compile_stmts_sim orc p HF compiler_new st1 Hg Hc) as [_ [ce [kx [Hce [Hkx [Hf Hsim]]]]]].
+  cbn [compiler_new c_code c_constants app] in Hce, Hkx.
+  destruct (load_consts_kint kx empty_heap Hf) as [L1 [L2 L3]].
+  destruct (load_consts kx empty_heap) as [consts h0] eqn:El. cbn [fst snd] in L1, L2, L3. subst h0.
+  set (prog := mkProgram (ce ++ [byte_of_opcode OHalt]) consts).
+  set (s0 := vm_start vm_new consts empty_heap).
+  assert (code_len st1 = zlength ce) as Lce by (unfold code_len; rewrite Hce; reflexivity).
+  assert (code_at prog 0 ce) as Hcode by (exists [], [byte_of_opcode OHalt]; split; reflexivity).
+  assert (consts_ok prog (c_constants st1)) as Hk.
+  { rewrite Hkx. intros i z Hi. apply L2. exact Hi. }
+  specialize (Hsim prog Hcode Hk s0 eq_refl).
+  assert (mst_of s0 = mst0) as Em.
+  { unfold s0, vm_start, mst_of, mst0. cbn [v_heap v_gc v_globals vm_new]. rewrite L3. reflexivity. }
+  rewrite Em in Hsim. change (v_final s0) with VNull in Hsim.
+  change (c_symbols compiler_new) with symtab_new in Hsim.
+  assert (load_consts (b_constants (mkBytecode (c_constants st1) (c_code st1 ++ [byte_of_opcode OHalt])))
+                      empty_heap = (consts, empty_heap)) as Hload.
+  { cbn [b_constants]. rewrite Hkx. exact El. }
+  assert (b_code (mkBytecode (c_constants st1) (c_code st1 ++ [byte_of_opcode OHalt])) = p_code prog) as Hbc.
+  { cbn [b_code prog p_code]. rewrite Hce. reflexivity. }
+  destruct (pexec orc symtab_new p mst0 VNull) as [[m' fin']| | |] eqn:Ep; cbn [sim_stmts retag] in Hsim.
+  - destruct Hsim as [n Hn].
+    destruct (pexec_scalar orc p HF symtab_new mst0 VNull m' fin') as [Sfin _]; auto.
+    { constructor. }
+    set (sF := setmf s0 (code_len st1) m' fin') in *.
+    assert (code_at prog (v_ip sF) [byte_of_opcode OHalt]) as Hh.
+    { exists ce, []. split; [reflexivity|]. symmetry. exact Lce. }
+    destruct (step_halt orc prog sF [] Hh Sfin) as [s' [Hst Hout]].
+    exists (n + 1)%nat. eapply run_program_eq; [exact Hload| |exact Hout].
+    cbn [b_code]. rewrite Hce. fold prog. fold s0. rewrite (run_loop_reach orc prog n s0 sF 1 Hn).
+    cbn [run_loop]. rewrite Hst. reflexivity.
+  - destruct Hsim as [n [s1 [Hn [Hst Hout]]]].
+    exists (n + 1)%nat. eapply run_program_eq; [exact Hload| |exact Hout].
+    cbn [b_code]. rewrite Hce. fold prog. fold s0. rewrite (run_loop_reach orc prog n s0 s1 1 Hn).
+    cbn [run_loop]. rewrite Hst. reflexivity.
+  - destruct Hsim as [n [s1 [Hn [Hst Hout]]]].
+    exists (n + 1)%nat. eapply run_program_eq; [exact Hload| |exact Hout].
+    cbn [b_code]. rewrite Hce. fold prog. fold s0. rewrite (run_loop_reach orc prog n s0 s1 1 Hn).
+    cbn [run_loop]. rewrite Hst. reflexivity.
+  - exact I.
+Qed.
+
+Print Assumptions compile_expr_sim.
+Print Assumptions compile_stmts_sim.
+Print Assumptions compile_run_F1.
+Print Assumptions peval_scalar.
